@@ -4940,3 +4940,15 @@ impl IceTransport {
         IceTransportRunner::run_tcp_listen_loop(listener, self.inner.clone()).await;
     }
 }
+
+#[cfg(rustrtc_verif)]
+impl IceTransport {
+    /// Register a TURN client for the relayed address `relayed` as the gatherer does after a successful Allocate.
+    pub fn verif_add_turn_client(&self, relayed: SocketAddr, client: Arc<TurnClient>) {
+        self.inner.gatherer.turn_clients.lock().insert(relayed, client);
+    }
+    /// One `run_turn_refresh` pass exactly as the runner's refresh interval arm calls it.
+    pub async fn verif_run_turn_refresh(&self) {
+        IceTransportRunner::run_turn_refresh(&self.inner).await;
+    }
+}
